@@ -37,6 +37,11 @@ CHECKS_FOR = {
 }
 
 
+# second pass (--rerun-survivors): the five most expensive checks are left out for fickle.py (a survivor costs every check
+# of its list; with them one survivor takes ~8 minutes of the whole machine)
+CHECKS_FOR_PASS2 = dict(CHECKS_FOR, **{"fickle.py": ["C15", "C18", "C06", "C08", "C10", "C02", "C04", "C19", "C16", "C14"]})
+
+
 def sites(path, kinds):
     src = open(path).read()
     tree = ast.parse(src)
@@ -153,7 +158,7 @@ def evaluate(args):
             rec["outcome"] = "does-not-import"
             return rec
         t0 = time.time()
-        for chk in CHECKS_FOR.get(fname, []):
+        for chk in (CHECKS_FOR_PASS2 if os.environ.get("MUTSWEEP_PASS2") else CHECKS_FOR).get(fname, []):
             c = run(f"./vcheck {chk} --tier quick", env=env, cwd=VERIF, timeout=1500)
             if c.returncode == 1 and "VIOLATION" in c.stdout:
                 first = next((ln.strip() for ln in c.stdout.splitlines() if ln.startswith("  [")), "")
@@ -209,6 +214,12 @@ def main():
                 surv.add((r["file"], r["kind"], r["line"], r["new"], r["orig"]))
         work = [w for w in work if (w[0], w[2]["kind"], w[2]["line"], w[2]["new"], w[2]["orig"]) in surv]
         resf = os.path.join(outdir, "results_pass2.jsonl")
+        os.environ["MUTSWEEP_PASS2"] = "1"
+        if os.path.exists(resf):
+            for ln in open(resf):
+                r = json.loads(ln)
+                done.add((r["file"], r["kind"], r["line"], r["new"], r["orig"]))
+            work = [w for w in work if (w[0], w[2]["kind"], w[2]["line"], w[2]["new"], w[2]["orig"]) not in done]
     if os.path.exists(resf):
         for ln in open(resf):
             r = json.loads(ln)
